@@ -1,13 +1,25 @@
 (* Correspondence for C10: a real Store holding real metrics built by an
-   operation sequence, then Store.Gc(); the model recomputes the listing. *)
+   operation sequence, then Store.Gc(); the model recomputes the listing.
+   CHist: the same metric lives on: operations, Store.Gc(), more operations,
+   Store.Gc() again, ...; the model recomputes the result of every operation
+   and the listing after every pass. *)
 From V Require Export Corr.MetricRun Metrics.Gc.
 Local Open Scope N_scope.
 
 Inductive gcase :=
 | CGc (id : N) (arity : nat) (t : vtype) (limit : nat) (ops : list op) (now : Z)
-      (after : list (tuple * N * cell)).
+      (after : list (tuple * N * cell))
+| CHist (id : N) (arity : nat) (t : vtype) (limit : nat) (evs : list event) (obs : list hobs).
 
-Definition gcase_id (c : gcase) : N := match c with CGc i _ _ _ _ _ _ => i end.
+Definition gcase_id (c : gcase) : N :=
+  match c with CGc i _ _ _ _ _ _ | CHist i _ _ _ _ _ => i end.
+
+Definition hobs_eqb (a b : hobs) : bool :=
+  match a, b with
+  | HOuts x, HOuts y => list_eqb out_eqb x y
+  | HAfter x, HAfter y => list_eqb entry_eqb x y
+  | _, _ => false
+  end.
 
 Definition gcase_ok (c : gcase) : bool :=
   match c with
@@ -15,6 +27,8 @@ Definition gcase_ok (c : gcase) : bool :=
       let m := fst (c_run encode (c_init n t) ops) in
       let m' := c_gc encode limit now m in
       list_eqb entry_eqb (map (fun lv => (lv_labels lv, lv_ptr lv, lv_cell lv)) (m_slice m')) after
+  | CHist _ n t limit evs obs =>
+      list_eqb hobs_eqb (snd (h_run encode limit (c_init n t) evs)) obs
   end.
 
 Definition mismatches (l : list gcase) : list N := failing gcase_ok gcase_id l.
